@@ -110,7 +110,7 @@ func Plan(tier string, seed uint64) []Cfg {
 	n := 640
 	maxT := 8
 	if tier == "thorough" {
-		n = 16000
+		n = 120000
 		maxT = 64
 	}
 	if tier == "racethorough" {
@@ -131,8 +131,8 @@ func Plan(tier string, seed uint64) []Cfg {
 		nin := 1 + r.Intn(3)
 		for k := 0; k < nin; k++ {
 			sz := []int{1121, 1200, 1500, 2500, 4096}[r.Intn(5)]
-			if tier == "thorough" && r.Intn(200) == 0 {
-				sz = 125000
+			if r.Intn(150) == 0 {
+				sz = 125000 // a 10^6-bit sample: size-dependent fast paths only show here
 			}
 			c.Inputs = append(c.Inputs, InputSpec{N: sz, Seed: r.Uint64() % 16, Kind: []string{"prf", "prf", "biased", "alt", "zeros"}[r.Intn(5)]})
 		}
